@@ -19,16 +19,16 @@ BOUNDS = {
     "quick": {"decode(encode(b))": "every byte string of length 1..9, any number of leading zero bytes",
               "encode(decode(s))": "every string over the alphabet of length 1..10",
               "rejection": "every string of length 1..5 of arbitrary Unicode code points",
-              "checksum soundness": "every string over the alphabet of length 0..8; checksum round trip for every payload of 0..3 bytes; corrupted checksum for payloads of 0..2 bytes"},
+              "checksum soundness": "every string over the alphabet of length 0..8; checksum round trip for every payload of 0..3 bytes; corrupted checksum for payloads of 0..2 bytes",
+              "real sizes": "encode_base58_checksum on every 21-byte address payload (version 05/6f/c4), 33/34-byte WIF payload (80/ef), content symbolic; thorough adds version 00 and the 78-byte extended-key payloads (12 versions)"},
     "thorough": {"decode(encode(b))": "length 1..11", "encode(decode(s))": "length 1..12", "rejection": "length 1..6",
-                 "checksum soundness": "alphabet strings of length 0..10; payloads of 0..5 bytes; corrupted checksum 0..3 bytes"},
+                 "checksum soundness": "alphabet strings of length 0..9; payloads of 0..4 bytes; corrupted checksum 0..3 bytes"},
 }
 STUBS = ["hashlib.sha256 -> uninterpreted function per input length (integer-valued, one per output byte)"]
 ASSUMPTIONS = ["SHA-256 is a function with 32-byte output (nothing else)",
                "engine models of hex()/bytes.fromhex()/int.to_bytes for mathematical integers"]
-OUTSIDE = ["byte strings longer than 12 bytes / strings longer than 14 characters as fully symbolic round trips "
-           "(the 25/38/82-byte payloads of addresses, WIFs and extended keys run the same loops; their lengths and "
-           "first characters are covered by lemmas in C07/C09)"]
+OUTSIDE = ["decoding of strings longer than 12 characters as a fully symbolic round trip (the real *encoder* is run on the "
+           "21/33/34/78-byte payloads the wallet emits: value relation, first character, length)"]
 LEVEL_TEXT = ("Bounded symbolic model checking of the real encode_base58/decode_base58/decode_base58_checksum: "
               "both round-trip directions, the leading-zero rule, rejection of foreign characters and checksum "
               "soundness are solver queries over all byte strings / strings up to the stated lengths.")
@@ -166,6 +166,31 @@ def checksum_corrupt(E, R, n):
     return "ok"
 
 
+def encode_real(E, R, prefix, plen):
+    """the real encode_base58_checksum on payloads of the sizes the wallet actually emits (addresses 21, WIF 33/34,
+    extended keys 78 bytes): positional value relation, and the first character / length rows that the Base58Check
+    summary of the other properties relies on (common.FIRST_CHAR)"""
+    from props import common as cm
+    pre = bytes.fromhex(prefix)
+    tail = E.bytes("tail", plen - len(pre), mode="int")
+    payload = pre + tail
+    s = E.run(R.helper.encode_base58_checksum, payload)
+    if isinstance(s, Raised):
+        E.fail("encode_base58_checksum encodes")
+        return "raised"
+    full = payload + E.H.hash256(payload)[:4]
+    value_relation(E, s, full, "real-size encode")
+    chars, m = cm.FIRST_CHAR[(pre, plen)]
+    first = s[0]
+    ok = False
+    for ch in chars:
+        ok = ok | (first == ch) if not isinstance(first == ch, bool) or not isinstance(ok, bool) else (ok or first == ch)
+    E.check(ok, "first character of the real encoding is the one the summary assumes")
+    if m is not None:
+        E.check(len(s) == m, "length of the real encoding is the one the summary assumes")
+    return len(s)
+
+
 def E_eq(E, a, b):
     from sx.values import SxBool, z3bool
     r = E.eq(a, b)
@@ -190,11 +215,17 @@ def cases(tier):
     for m in range(1, (5 if q else 6) + 1):
         cs.append(Case("reject[%d]" % m, "reject", dict(m=m), need=("foreign character -> ValueError",), weight=3 ** m,
                        max_paths=400000))
-    for m in range(0, (8 if q else 10) + 1):
+    for m in range(0, (8 if q else 9) + 1):
         cs.append(Case("checksum_sound[%d]" % m, "checksum_sound", dict(m=m), weight=2 ** m))
-    for n in range(0, (3 if q else 5) + 1):
+    for n in range(0, (3 if q else 4) + 1):
         cs.append(Case("checksum_roundtrip[%d]" % n, "checksum_roundtrip", dict(n=n), weight=2 ** (n + 4),
                        need=("decode_base58_checksum(encode_base58_checksum(p)) == p",)))
+    from props import common as cm
+    for (pre, plen) in sorted(cm.FIRST_CHAR):
+        if q and (plen == 78 or pre == b"\x00"):
+            continue          # 78-byte payloads (3 min each) and the leading-zero address prefix: thorough tier
+        cs.append(Case("encode_real[%s,%d]" % (pre.hex(), plen), "encode_real", dict(prefix=pre.hex(), plen=plen), weight=plen,
+                       need=("real-size encode: positional base-58 value", "first character of the real encoding is the one the summary assumes")))
     for n in range(0, (2 if q else 3) + 1):
         cs.append(Case("checksum_corrupt[%d]" % n, "checksum_corrupt", dict(n=n), weight=2 ** (n + 4),
                        need=("wrong checksum rejected",)))
